@@ -65,8 +65,10 @@ def write_mc(wd, scn, name="MC", next_offs=(0, 1, 2), fut_offs=(0, 1), faults=Fa
 _COV = re.compile(r"<(\w+) line \d+, col \d+ to line \d+, col \d+ of module MosaikSched>: (\d+):(\d+)")
 
 
-def check(scn, workers=4, timeout=600, dump=False, coverage=True, liveness=False, **kw):
-    """Exhaustive TLC run of (S) on one scenario. Returns a result dict (and the dump path if asked)."""
+def check(scn, workers=4, timeout=600, dump=False, coverage=True, liveness=False, stop_after=None, **kw):
+    """Exhaustive TLC run of (S) on one scenario. Returns a result dict (and the dump path if asked).
+    stop_after (seconds): TLC's own time budget (-Dtlc2.TLC.stopAfter); the breadth-first search then ends
+    gracefully with the states explored so far, res["exhaustive"] says whether the queue was empty."""
     wd = tlc.scratch()
     keep = dump
     try:
@@ -77,10 +79,18 @@ def check(scn, workers=4, timeout=600, dump=False, coverage=True, liveness=False
             extra += ["-coverage", "1"]
         if dump:
             extra += ["-dump", "dot,actionlabels", os.path.join(wd, "graph")]
-        out, secs, rc = tlc.run_tlc(name, cfg=name + ".cfg", workdir=wd, workers=workers, timeout=timeout, extra=extra, heap="6g")
+        env = None
+        if stop_after:
+            env = {"JAVA_TOOL_OPTIONS": (os.environ.get("JAVA_TOOL_OPTIONS", "") + f" -Dtlc2.TLC.stopAfter={int(stop_after)}").strip()}
+        out, secs, rc = tlc.run_tlc(name, cfg=name + ".cfg", workdir=wd, workers=workers, timeout=timeout, extra=extra, heap="6g", env=env)
         st = tlc.stats(out)
         res = {"ok": "Model checking completed. No error has been found" in out, "states": st["distinct"],
                "transitions": st["generated"], "secs": round(secs, 1), "rc": rc}
+        left = None
+        for left in re.finditer(r"(\d+) states left on queue", out):
+            pass
+        res["left_on_queue"] = int(left.group(1)) if left else 0
+        res["exhaustive"] = res["ok"] and res["left_on_queue"] == 0
         m = re.search(r"Invariant (\w+) is violated", out)
         if m:
             res["violated"] = m.group(1)
@@ -257,6 +267,16 @@ def validate_internal(scn, results, timeout=900, **kw):
     """results: list of explore results with 'internal' records (same scenario).
     Returns list of {"accepted": bool, "at": l, "what": str, "viol": str} per result."""
     from .drive import categorize
+
+    # executions whose internal sections could not be recorded (the code no longer has the shape the
+    # out-of-tree wrappers expect) are reported as not accepted = drift; they are not sent to TLC
+    if any(r.get("internal") is None for r in results):
+        have = [r for r in results if r.get("internal") is not None]
+        sub, info = validate_internal(scn, have, timeout=timeout, **kw) if have else ([], {"states": 0, "generated": 0, "secs": 0.0})
+        it = iter(sub)
+        return [next(it) if r.get("internal") is not None else
+                {"accepted": False, "at": 0, "what": "internal trace unavailable: " + str(r.get("internal_unavailable"))[:150]}
+                for r in results], info
 
     wd = tlc.scratch()
     try:
